@@ -356,6 +356,10 @@ class Session:
             betas = self.betas_at(k)
             ast = self.integrand()
             e = ex.MonteCarlo(self.build(ast))
+            if k % 2:
+                # the same expression was evaluated on its own before, with another number of draws
+                e.get_value_c(database=self.db, betas=betas, number_of_draws=R + 2, aggregation=False, prepare_ids=True)
+                ctx.probe('objective function built on an expression evaluated before with another number of draws')
             self.calls.clear()
             fobj = e.create_objective_function(database=self.db, number_of_draws=R, gradient=True, hessian=False)
             names_ = sorted(ref.collect(ast, [])['beta'])
@@ -580,9 +584,13 @@ class Session:
         from biogeme.parameters import Parameters
         ctx = self.ctx
         p = Parameters()
+        # seed and number of draws: in the Parameters object, as constructor keywords, or (seed_as_kwarg == 2) under the
+        # obsolete spellings of these keywords, which the constructor still accepts
+        old_style = seed_as_kwarg and (seed + R) % 2 == 1
         if not seed_as_kwarg:
             p.set_value('seed', seed)
-        p.set_value('number_of_draws', R)
+        if not old_style:
+            p.set_value('number_of_draws', R)
         p.set_value('number_of_threads', self.cfg['threads'])
         p.set_value('save_iterations', False)
         inner = self.build(self.integrand())
@@ -601,7 +609,10 @@ class Session:
             om_ = ex.RandomVariable('omega_obj')
             forms = dict({'integ': ex.Integrate(ex.exp(-om_ * om_ / 2.0) * (1 + 0.1 * ex.Variable('x0')), 'omega_obj')}, **forms)
             ctx.probe('numerical integral and Monte-Carlo formulas in one object')
-        if seed_as_kwarg:
+        if old_style:
+            b = bio.BIOGEME(self.db, forms, parameters=p, seed_param=seed, numberOfDraws=R)
+            ctx.probe('seed and number of draws given under the obsolete keyword spellings')
+        elif seed_as_kwarg:
             b = bio.BIOGEME(self.db, forms, parameters=p, seed=seed)
         else:
             b = bio.BIOGEME(self.db, forms, parameters=p)
